@@ -43,8 +43,9 @@ import (
 
 const (
 	spokeID     = "spoke-a"
-	chunk       = 24 // a file is two chunks
-	maxAttempts = 2
+	chunk       = 24 // a file is three chunks (two truncation points)
+	chunks      = 3
+	maxAttempts = 3
 )
 
 // ---------------------------------------------------------------- schedule (TLC hist)
@@ -268,7 +269,7 @@ func (h *harness) dead() bool {
 
 // snapshotHub walks the hub directory and emits exposure changes. Caller holds mu.
 func (h *harness) snapshotHub() {
-	now := map[int]string{}
+	now, lens := map[int]string{}, map[int]int{}
 	root := h.hubFS
 	_ = filepath.WalkDir(root, func(p string, d fs.DirEntry, err error) error {
 		if err != nil {
@@ -299,16 +300,16 @@ func (h *harness) snapshotHub() {
 		if err != nil {
 			return nil
 		}
-		s := sha256.Sum256(b)
-		hx := hex.EncodeToString(s[:])
-		switch hx {
-		case h.ownSha[f-1]:
+		// judged on the bytes themselves: same length AND same content as what the driver wrote on the spoke
+		switch {
+		case len(b) == len(h.own[f-1]) && bytes.Equal(b, h.own[f-1]):
 			now[f] = "own"
-		case h.forSha[f-1]:
+		case len(b) == len(h.foreign[f-1]) && bytes.Equal(b, h.foreign[f-1]):
 			now[f] = "foreign"
 		default:
 			now[f] = "bad"
 		}
+		lens[f] = len(b)
 		return nil
 	})
 	for f := 1; f <= h.nfiles; f++ {
@@ -329,7 +330,7 @@ func (h *harness) snapshotHub() {
 		if cur == "none" {
 			h.emit(event{"ev": "unexpose", "f": f})
 		} else {
-			h.emit(event{"ev": "commit", "f": f, "cls": cur})
+			h.emit(event{"ev": "commit", "f": f, "cls": cur, "len": lens[f], "spoke_len": len(h.own[f-1])})
 		}
 	}
 }
@@ -520,15 +521,14 @@ func (t *loopTransport) PutFile(ctx context.Context, hubID string, entry *edgesy
 			return nil, errDead
 		}
 		return edgesync.BackpressureResult(time.Second), nil
-	case "short":
-		keep := int64(chunk) - offset
-		if keep < 0 {
-			keep = 0
+	case "short", "shortDrop":
+		// one more chunk reaches the hub, or nothing when a single chunk was left
+		keep := 0
+		if len(data) > chunk {
+			keep = chunk
 		}
-		if keep < int64(len(data)) {
-			data = data[:keep]
-			note(fault)
-		}
+		data = data[:keep]
+		note(fault)
 	case "corrupt":
 		if len(data) > 0 {
 			data = append([]byte(nil), data...)
@@ -550,8 +550,10 @@ func (t *loopTransport) PutFile(ctx context.Context, hubID string, entry *edgesy
 	if h.callExit() {
 		return nil, errDead
 	}
-	if fault == "dropAfter" {
-		note(fault)
+	if fault == "dropAfter" || fault == "shortDrop" {
+		if fault == "dropAfter" {
+			note(fault)
+		}
 		return nil, errLostAck
 	}
 	if err != nil {
@@ -768,7 +770,7 @@ func isLedgerWrite(q string) bool {
 // ---------------------------------------------------------------- scenario execution
 
 func content(seed, f int, foreign bool) []byte {
-	b := make([]byte, 2*chunk)
+	b := make([]byte, chunks*chunk)
 	x := uint32(seed*7919 + f*104729 + 17)
 	if foreign {
 		x ^= 0x5bd1e995
